@@ -59,7 +59,7 @@ OPTIONS = {
     'buildtype': ['release', 'debug', 'plain', 'debugoptimized'], 'warning_level': ['0', '1', '3', 'everything'],
     'werror': ['true', 'false'], 'optimization': ['0', '2', 'g', 's'], 'default_library': ['static', 'both', 'shared'],
     'unity': ['on', 'off'], 'strip': ['true', 'false'], 'prefix': ['/opt/p', '/usr'], 'c_std': ['c99', 'c11', 'gnu11'],
-    'layout': ['flat', 'mirror'],
+    'layout': ['flat', 'mirror'], 'bindir': ['b1', 'b2'], 'libdir': ['lib64', 'lib'], 'debug': ['true', 'false'],
 }
 
 
@@ -172,13 +172,25 @@ SPECIAL_EXPRS: T.Dict[str, T.List[str]] = {
     'str': ['(1 + 2).to_string()', "'a' + 'b'", "'''raw\\n'''", "'a' / 'b'", "true ? 'a' : 'b'", "('a' + 'b').to_upper()",
             "'q\\'q'", "'back\\\\slash'", "'tab\\t.'", "'nl\\nx'", "'\\x41\\101\\u00e9'", "'ünï'", "'''it's'''", "'@0@-@1@'.format(1, 'x')",
             "(2 * (3 + 4)).to_string(fill: 4)", "'a,b'.split(',')[1]", "['x', 'y'][0]", "'-'.join(['a', 'b'])", "f'plain'",
-            "'''multi\nline'''", "(not true).to_string()", "'abc'.substring(-2)", "'\\\\'", "'\\''"],
+            "'''multi\nline'''", "f'''multi\nline'''", "'''l1\nl2\n  l3'''", "f'''p @0@\nq'''", "'''x\n'''",
+            "(not true).to_string()", "'abc'.substring(-2)", "'\\\\'", "'\\''"],
     'int': ['(1 + 2) * 3', '1 + 2 * 3', '2 - (3 - 4)', '-(1 + 2)', '8 / (4 / 2)', '7 % (5 % 3)', '[1, 2, 3][1]', "'12'.to_int() + 1",
             'true ? 1 : 2', '(true ? 1 : 2) + 3', '0x1f', '0o17', '0b101', '-1 - -2', '[1, [2, 3]].length()', "{'a': 7}.get('a')"],
     'strs': ["['-DA', '-DB=' + (1 + 2).to_string()]", "['a'] + ['b']", "'a b'.split()", "['it\\'s', '''it's''']", "[]",
-             "true ? ['x'] : []", "['x', ['y', ['z']]]", "{'a': 'b'}.keys()", "[('-D' + 'x')]"],
+             "true ? ['x'] : []", "['x', ['y', ['z']]]", "{'a': 'b'}.keys()", "[('-D' + 'x')]",
+             "['''a\nb''', 'c']", "['-D', f'''p\nq''']", "[f'''m\nn''']"],
     'dict': ["{'a': 1, 'b': [1, 2]}", "{'k': 'v'} + {'k2': not false}", "{}", "{'a b': 'it\\'s', 'n': -1}", "{'x': (1 + 2) * 3}"],
 }
+
+
+# strings that span lines, placed last in an argument list / array so that the closing quotes share their line with `)` / `]`
+SPANNING = ["f'''one\ntwo'''", "'''one\ntwo'''", "f'''a\n\tb\nc'''", "f'''@0@\n'''", "'''\nx'''", "f'''\n'''"]
+# a recorded finding: the printer strips blanks / empty lines before a newline also inside re-printed multi-line literals
+BLANK_BEFORE_NEWLINE = ["'''a  \n\n\nb'''", "f'''a \nb'''", "'''a\n\nb'''"]
+# default options whose name is the tail of another option's name: (short, long, value of long)
+SUFFIX_PAIRS = [('bindir', 'sbindir', 'sb'), ('debug', 'b_ndebug', 'if-release'), ('libdir', 'python.platlibdir', 'plat'), ('opt', 'sub:opt', '2')]
+NEWLINE_FILE = 'od\nd.c'                       # a source file whose name contains a newline (written as a multi-line literal)
+BLANK_LITERAL_RE = re.compile(r"'''(?:(?!''')[\s\S])*?(?:[ \t]\n|\n[ \t]*\n)(?:(?!''')[\s\S])*?'''")
 
 
 def text_to_tokens(text: str, mp: T.Any) -> T.List[Tok]:
@@ -283,7 +295,14 @@ class ProjGen:
             args.append(self.strlist(srcs))
         elif form == 'var':
             v = self.fresh('src')
-            pre.append([ident(v), S('assign')] + self.strlist(srcs))
+            lst = self.strlist(srcs)
+            if not subdir and r.random() < 0.3:
+                lst = lst[:-1]
+                if lst[-1]['t'] == 'comma':
+                    lst = lst[:-1]
+                lst += [S('comma'), string(NEWLINE_FILE, r.choice(['mfs', 'ms'])), S('rbracket')]
+                all_srcs = all_srcs + [NEWLINE_FILE]
+            pre.append([ident(v), S('assign')] + lst)
             args.append([ident(v)])
         elif form == 'files':
             args.append(self.files_call(srcs))
@@ -363,13 +382,19 @@ class ProjGen:
                 if t['var'] in libs:
                     t['referenced'] = True
         r.shuffle(kws)
+        spare = [k for k in B_STR if k not in used]
+        spanning_last = False
+        if spare and r.random() < 0.22:
+            lit = r.choice(BLANK_BEFORE_NEWLINE) if r.random() < 0.12 else r.choice(SPANNING)
+            kws.append((r.choice(spare), text_to_tokens(lit, self.mp)))
+            spanning_last = True
         call = [ident(kind), S('lparen')]
         parts = args + [[ident(k), S('colon')] + e for k, e in kws]
         for i, p in enumerate(parts):
             if i:
                 call.append(S('comma'))
             call += p
-        if r.random() < 0.15:
+        if r.random() < 0.15 and not spanning_last:
             call.append(S('comma'))
         call.append(S('rparen'))
         var = ''
@@ -391,6 +416,7 @@ class ProjGen:
         self.license: T.Optional[T.List[str]] = None
         self.dopts: T.Dict[str, str] = {}
         self.dform = 'none'
+        self.pair = ''
         if r.random() < 0.7:
             kws.append(('version', self.expr('str') if r.random() < 0.3 else [string(r.choice(['1.0', '0.9.1']))]))
         if r.random() < 0.5:
@@ -403,6 +429,16 @@ class ProjGen:
         if c < 0.75:
             keys = r.sample(sorted(OPTIONS), r.choice([0, 1, 2, 3]))
             self.dopts = {k: r.choice(OPTIONS[k]) for k in keys}
+            if r.random() < 0.3:
+                short, long_, lv = r.choice(SUFFIX_PAIRS)
+                self.dopts = {k: v for k, v in self.dopts.items() if k not in (short, long_)}
+                self.pair = short
+                self.dopts[long_] = lv
+                if r.random() < 0.6:
+                    self.dopts[short] = r.choice(OPTIONS.get(short, ['1']))
+                its = list(self.dopts.items())
+                r.shuffle(its)
+                self.dopts = dict(its)
             items = [f'{k}={v}' for k, v in self.dopts.items()]
             f = r.random()
             if len(items) == 1 and f < 0.3:
@@ -445,10 +481,15 @@ class ProjGen:
         if style >= 0.6 and r.random() < 0.5:
             lines = text.split('\n')
             out = []
+            inside = False                      # inside a literal that spans lines: the lines are string contents
             for ln in lines:
-                if ln and r.random() < 0.15:
+                odd = ln.count("'" * 3) % 2 == 1
+                if ln and not inside and r.random() < 0.15:
                     out.append(r.choice(['# a comment', '', '# executable(\'x\', \'y.c\')']))
-                out.append(ln + (r.choice(['  # trailing', ' # it\'s (a) comment']) if ln and r.random() < 0.1 and not self.in_multiline(ln) else ''))
+                ends_inside = inside != odd
+                out.append(ln + (r.choice(['  # trailing', ' # it\'s (a) comment']) if ln and r.random() < 0.1 and not ends_inside
+                                 and not ln.rstrip().endswith('\\') else ''))
+                inside = ends_inside
             text = '\n'.join(out)
         if r.random() < 0.15:
             text = text.rstrip('\n')
@@ -496,9 +537,9 @@ class ProjGen:
         files = {'meson.build': self.render(root)}
         if have_sub:
             files['sub/meson.build'] = self.render(sub_stmts)
-        touch = SRC_POOL + EXTRA_POOL + ['new1.c', 'new2.c', 'sub/new1.c', 'sub/new2.c'] + ['sub/' + f for f in SRC_POOL + EXTRA_POOL]
+        touch = SRC_POOL + EXTRA_POOL + [NEWLINE_FILE, 'new1.c', 'new2.c', 'sub/new1.c', 'sub/new2.c'] + ['sub/' + f for f in SRC_POOL + EXTRA_POOL]
         return {'files': files, 'touch': touch, 'targets': self.targets, 'license': self.license, 'dopts': self.dopts, 'dform': self.dform,
-                'libvars': self.libvars, 'have_sub': have_sub}
+                'libvars': self.libvars, 'have_sub': have_sub, 'pair': self.pair}
 
 
 # ---------------------------------------------------------------------------
@@ -520,6 +561,8 @@ def gen_commands(rnd: random.Random, proj: T.Dict[str, T.Any]) -> T.List[T.Dict[
 
     while len(out) < n:
         c = r.random()
+        if proj['pair'] and proj['dform'] != 'dict' and not out and r.random() < 0.5:
+            c = 0.95
         t = r.choice(targets)
         pool = [os.path.join(t['dir'], f) for f in SRC_POOL + ['new1.c', 'new2.c']]
         if c < 0.16:
@@ -598,6 +641,13 @@ def gen_commands(rnd: random.Random, proj: T.Dict[str, T.Any]) -> T.List[T.Dict[
                 out.append(acmd('kw_delete', '/', fn='project', kws=[{'k': r.choice(['version', 'license', 'meson_version']), 'ty': 'val', 'py': None}], cli=cli(True)))
             else:
                 out.append(acmd('kw_set', '/', fn='project', kws=[{'k': 'meson_version', 'ty': 'val', 'py': '>=0.60'}], cli=cli(True)))
+        elif proj['dform'] != 'dict' and proj['pair'] and r.random() < 0.7:
+            # an option whose name is the tail of the name of another option of the list
+            short = proj['pair']
+            if short != 'opt' and r.random() < 0.6:
+                out.append(acmd('do_set', '/', fn='project', opts=[(short, r.choice(OPTIONS[short]))], cli=cli(True)))
+            else:
+                out.append(acmd('do_delete', '/', fn='project', opts=[(short, '')], cli=cli(True)))
         elif proj['dform'] != 'dict':
             keys = r.sample(sorted(OPTIONS), r.choice([1, 1, 2]))
             if proj['dopts'] and r.random() < 0.5:
@@ -717,6 +767,7 @@ def run_case(spec: T.Dict[str, T.Any], mods: T.Tuple[T.Any, T.Any, T.Any], alpha
         for rel, text in spec['files'].items():
             (d / rel).parent.mkdir(parents=True, exist_ok=True)
             (d / rel).write_text(text, encoding='utf-8')
+        (d / 'meson.options').write_text("option('opt', type : 'string', value : 'd')\n")
         for rel in spec['touch']:
             (d / rel).parent.mkdir(parents=True, exist_ok=True)
             if not (d / rel).exists():
@@ -818,7 +869,8 @@ def model_cases(chk: Check, count: int, maxlen: int) -> T.List[T.Dict[str, T.Any
 # ---------------------------------------------------------------------------
 # a few fixed projects (the shapes the property statement names), run in every tier in addition to the generated ones
 
-FIXED_ROOT = """project('p', 'c', version : '1.0', license : 'MIT', default_options : ['warning_level=2', 'c_std=c99'])
+FIXED_ROOT = """project('p', 'c', version : '1.0', license : 'MIT', default_options : ['warning_level=2', 'c_std=c99',
+  'sbindir=sb', 'bindir=b1', 'b_ndebug=if-release', 'debug=true', 'python.platlibdir=plat', 'sub:opt=2', 'opt=1'])
 # comment before
 shared = ['a.c']   # trailing comment
 lib = static_library('l1', shared, 'b.c', install : 1 + 2 * 3 == 7 ? true : false)
@@ -832,17 +884,25 @@ endif
 src3 = ['c.c', 'a.c']
 src3 += ['b.c']
 executable('e3', src3, files('d.c'), extra_files : ['README'], d_debug : -(1 + 2), override_options : {'k' : 'v'} + {'k2' : 'it\\'s'})
+src4 = ['a.c', f'''od
+d.c''']
+e4 = executable('e4', src4, c_args : ['-DA', '''p
+q'''], name_suffix : f'''one
+two''')
+after4 = [1, 2]
 subdir('sub')
 message('done')
 """
+# the same with a literal whose blanks before a newline the printer strips (a recorded finding)
+FIXED_BLANK = "project('p', 'c')\nexecutable('b1', 'a.c', install_tag : '''a  \n\n\nb''', win_subsystem : 'x')\nafter = 1\n"
 FIXED_SUB = "s_src = files('s.c', 't.c')\nexecutable('s1', s_src, install : 2 - (3 - 4) == 3)\n"
 
 
 def fixed_cases() -> T.List[T.Dict[str, T.Any]]:
     A = acmd
     files = {'meson.build': FIXED_ROOT, 'sub/meson.build': FIXED_SUB}
-    touch = ['a.c', 'b.c', 'c.c', 'd.c', 'e.c', 'README', 'NOTES.md', 'sub/s.c', 'sub/t.c', 'sub/u.c']
-    names = ['l1', 'e1', 'e2', 'e3', 's1', 'n1']
+    touch = ['a.c', 'b.c', 'c.c', 'd.c', 'e.c', 'README', 'NOTES.md', 'sub/s.c', 'sub/t.c', 'sub/u.c', NEWLINE_FILE]
+    names = ['l1', 'e1', 'e2', 'e3', 'e4', 's1', 'n1']
     kw = lambda k, v: {'k': k, 'ty': 'val', 'py': v}  # noqa: E731
     seqs = [
         [A('kw_set', 'e1', kws=[kw('build_by_default', False), kw('install', False)]), A('kw_delete', 'e1', kws=[kw('install', None)]), A('src_add', 'e1', files=['d.c'])],
@@ -858,7 +918,18 @@ def fixed_cases() -> T.List[T.Dict[str, T.Any]]:
         [A('kw_remove', 'exe', kws=[{'k': 'link_with', 'ty': 'ids', 'py': ['lib']}]), A('extra_files_rm', 'e3', files=['README']), A('info', 'e3')],
         [A('target_rm', 'exe'), A('target_add', 'e1', kind='shared_library', dir_='sub', files=['u.c']), A('target_rm', 'e3', cli='positional')],
     ]
-    return [{'id': f'fixed:{i}', 'files': files, 'touch': touch, 'cmds': cmds, 'names': names} for i, cmds in enumerate(seqs)]
+    seqs += [
+        # literals that span lines inside the edited array / call, closing quotes followed by `]` / `)` and another statement
+        [A('src_add', 'e4', files=['e.c']), A('kw_set', 'e4', kws=[kw('pie', True)]), A('src_rm', 'e4', files=[NEWLINE_FILE])],
+        [A('kw_set', 'e4', kws=[kw('install_dir', 'bin')], cli='positional'), A('target_rm', 'e4')],
+        # options whose name is the tail of another option's name
+        [A('do_set', opts=[('bindir', 'b2')]), A('do_delete', opts=[('debug', '')], cli='positional'), A('do_delete', opts=[('opt', '')])],
+        [A('do_set', opts=[('libdir', 'lib'), ('debug', 'false')]), A('do_delete', opts=[('bindir', ''), ('libdir', '')])],
+    ]
+    out = [{'id': f'fixed:{i}', 'files': files, 'touch': touch, 'cmds': cmds, 'names': names} for i, cmds in enumerate(seqs)]
+    out.append({'id': 'fixed:blank', 'files': {'meson.build': FIXED_BLANK}, 'touch': ['a.c'], 'names': ['b1'],
+                'cmds': [A('kw_set', 'b1', kws=[kw('pie', True)])]})
+    return out
 
 
 # ---------------------------------------------------------------------------
@@ -939,6 +1010,14 @@ def features(c: T.Dict[str, T.Any], v: T.Dict[str, T.Any]) -> T.List[str]:
             out.append('non-executable')
         if clause == 'DoesNotParse' and not out and re.search(r'[^A-Za-z0-9_\- ]', cmd['t']):
             out.append('name-not-an-identifier')
+    if clause == 'ProjectDiffers' and ('kwarg ' in v.get('note', '') or 'variables' in v.get('note', '')):
+        # a multi-line literal with a blank or an empty line before a newline, in a statement that was re-printed
+        after = c['log'][step]['files']
+        for path, text in before.items():
+            lost = [m.group(0) for m in BLANK_LITERAL_RE.finditer(text) if m.group(0) not in (after.get(path) or '')]
+            if lost and all(re.sub(r'\s+\n', '\n', x) in (after.get(path) or '') for x in lost):
+                out.append('multi-line-literal-with-blank-before-newline')
+                break
     if clause == 'ProjectDiffers' and cmd['op'] == 'extra_files_add':
         after = c['log'][step]['files']
         if any(re.search(r"extra_files\s*:\s*'(?:[^'\\]|\\.)*'\s*\+\s*\[", t) for t in after.values()):
